@@ -9,7 +9,7 @@ From Coq Require Import List NArith Bool String.
 From Coq.Strings Require Import Byte.
 From GM Require Import Codec.Packet Topic.MatchSpec Broker.Backend Broker.BackendSpec
   Broker.BackendProofs Broker.BackendProofsPublish Broker.BackendProofsSteps Broker.BackendProofsHist
-  Broker.BackendReadings Broker.BackendLog.
+  Broker.BackendReadings Broker.BackendLog Broker.BackendFrame.
 (* further theorems of this property about the connection monitor: *)
 From GM Require Props.C06_conn.
 Import ListNotations.
@@ -134,6 +134,17 @@ Theorem C06_dequeue_returns_head : forall st c temp k s m rest,
                         queue (negb temp) s' = queue (negb temp) s /\ s_subs s' = s_subs s.
 Proof. exact dequeue_returns_head. Qed.
 Print Assumptions C06_dequeue_returns_head.
+
+(* "Everything else is unchanged", at every step of every history (`frame_ok`, Broker/BackendFrame.v): a session's
+   subscriptions change only by a Subscribe/Unsubscribe of the connection holding it; its active connection only when
+   a Setup completes on it or its holder terminates; a session disappears only as the temporary session of a
+   terminating connection or the stored session of a client id whose clean Setup completes, and appears only as the
+   (empty) session a completing Setup hands out.  With C06_delivery_step (queues) nothing about a session changes
+   except as the operations say. *)
+Theorem C06_frame : forall cap ops,
+  Forall (fun x => let '(st, o, r, st') := x in frame_ok st o r st' = true) (trace (init cap) ops).
+Proof. exact frame_along. Qed.
+Print Assumptions C06_frame.
 
 (* lookupSubscription (Tree.MatchFirst as coded: the last report of the walk wins) finds a
    subscription iff the session holds a matching filter, and what it finds matches *)
